@@ -141,6 +141,11 @@ def run(ctx):
     # ---------------------------------------------------------------- tags
     tag_clause(ctx, s, fn, an, me, ev, false_rets, true_rets, facc, eacc)
     tags_matches(ctx, s)
+    # every reader of one position of the packed filter (accessors, the bounded iterators) takes the same width there
+    from . import layout
+    ffns = [f for f in ctx.F.fns.values() if f.kind != "Closure" and f.path.startswith("pocket_types::filter::") and
+            (f.nice.startswith("pocket_types::Filter::") or "Iter" in f.nice)]
+    layout.reader_width_agreement(ctx, s, sorted(ffns, key=lambda f: f.nice), "filter")
     # ---------------------------------------------------------------- totality
     scope = ctx.G.reachable([fn.path], within=lambda p: p.startswith("pocket_types::"))
     ctx.functions.update(scope)
@@ -181,6 +186,17 @@ def tag_clause(ctx, s, fn, an, me, ev, false_rets, true_rets, facc, eacc):
     g2 = [g for o in origin(a2) for g in gs(o)]
     ok1 = bool(g1) and all(contains_value(g[2][0], facc("tags")) and g[2][2] == ("const", 0, "usize") for g in g1)
     ok2 = bool(g2) and all(contains_value(g[2][0], facc("tags")) and g[2][2] != ("const", 0, "usize") for g in g2)
+    if ok2:
+        # the value index starts after the name: j >= 1 at every get_string(i, j) that yields a compared value
+        P_ = ctx.E.prover(fn)
+        from ..prove import lin_add, lin_const
+        for g in g2:
+            site = g[3] if len(g) > 3 else None
+            blk = site[1] if site and site[0] == fn.path else b
+            goal = lin_add(lin_const(1), P_.lin(g[2][2]), -1)       # 1 - j <= 0
+            facts_ = ctx.E.facts(fn, blk)
+            if not (P_.prove_le0(goal, facts_) or ctx.E.prove_inductive(fn, goal, blk, facts_)):
+                ok2 = False
     same_i = bool(g1) and bool(g2) and all(x[2][1] == y[2][1] or x[2][1][0] == "phi" or y[2][1][0] == "phi" for x in g1 for y in g2)
     ok = ok0 and ok1 and ok2 and same_i
     s.add("S-COVER", fn, "clause", "tags", info["sp"], PROVED if ok else VIOLATION,
